@@ -1,5 +1,7 @@
 (* C15 - lemmas about the ACL text model (Entry/AclDefs.v), collected:
-   AclLen   - length bound of the serialiser (memory safety of archive_acl_to_text_l/_w)
-   AclParse - the parser is total and reads only inside its input (and where it is not)
-   AclRound - to_text followed by from_text gives the entries back (POSIX.1e) *)
-From LA Require Export Entry.AclLen Entry.AclParse Entry.AclRound.
+   AclLen    - length bound of the serialiser (memory safety of archive_acl_to_text_l/_w)
+   AclParse  - the parser is total and reads only inside its input (and where it is not)
+   AclRound  - to_text followed by from_text gives the entries back, POSIX.1e
+   AclRound4 - the same for NFSv4
+   AclInv    - invariants of archive_acl_add_entry, round trip for every ACL the API can build *)
+From LA Require Export Entry.AclLen Entry.AclParse Entry.AclRound Entry.AclRound4 Entry.AclInv.
